@@ -32,7 +32,8 @@ def parseKind : String → Option Kind
 
 def parseOpt (idx : Nat) (l : LayerCfg) (o : String) : Option LayerCfg :=
   if o == "s" then some { l with sticky := some ("sk" ++ toString idx) }
-  else if o == "fr" then some { l with fallback := .redirect }
+  else if o == "fr" then some { l with fallback := .redirect "" }
+  else if o == "frp" then some { l with fallback := .redirect "/p" }
   else if o == "t" then some { l with retry := true }
   else if o == "v" then some { l with verbose := true }
   else
@@ -63,7 +64,15 @@ def parseStack (v : String) : Option (List LayerCfg) :=
     | t :: ts => match parseLayer i t, go (i + 1) ts with
       | some l, some ls => some (l :: ls)
       | _, _ => none
-  go 0 toks
+  -- `PreservePath` appends the path of the URL the breaker sees: behind a balancer that is the server URL `http://b0` (no path)
+  let rec retarget (behindLB : Bool) : List LayerCfg → List LayerCfg
+    | [] => []
+    | l :: ls =>
+      let l' := match l.fallback with
+        | .redirect "/p" => if behindLB then { l with fallback := .redirect "" } else l
+        | _ => l
+      l' :: retarget (behindLB || l.kind == Kind.roundrobin || l.kind == Kind.rebalancer) ls
+  (go 0 toks).map (retarget false)
 
 def chunkBytes (i n : Nat) : List Nat := (List.range n).map fun j => (37 * i + 11 * j + 7) % 251
 
